@@ -385,7 +385,7 @@ def cases_for(tier, s):
              {"recipe": {"b": "packing", "cell": "triangle", "p": {"seed": [s, 18, 2]}}}, {"recipe": {"b": "facet_plain", "cell": "prism"}},
              {"recipe": {"b": "mathfuns", "cell": "triangle"}}, {"recipe": {"b": "mathfuns", "cell": "interval"}}, {"recipe": {"b": "conditionals", "cell": "quadrilateral"}},
              {"recipe": {"b": "conditionals", "cell": "triangle"}}, {"recipe": {"b": "facet_edge_lengths", "cell": "tetrahedron"}},
-             {"recipe": {"b": "ridge_form", "cell": "tetrahedron", "p": {"which": 0}}}, {"recipe": {"b": "mixed_dim_codim1", "cell": "triangle", "p": {"which": 1}}},
+             {"recipe": {"b": "expr_zero", "cell": "interval"}}, {"recipe": {"b": "ridge_form", "cell": "tetrahedron", "p": {"which": 0}}}, {"recipe": {"b": "mixed_dim_codim1", "cell": "triangle", "p": {"which": 1}}},
              {"recipe": {"b": "bessel", "cell": "triangle", "p": {"kind": "J"}}}, {"recipe": {"b": "bessel", "cell": "interval", "p": {"kind": "Y", "nu": 2}}},
              {"recipe": {"b": "tp_mass_stiff", "cell": "quadrilateral", "tpmesh": True, "p": {"degree": 2}}, "options": {"sum_factorization": True}},
              {"recipe": {"b": "mass", "cell": "triangle", "p": {"degree": 2}}, "options": {"part": "diagonal"}}]
